@@ -29,7 +29,7 @@ TRUSTED_BASE = [
     "axioms: none beyond the standard-library ones named in the allow-list (real-number axioms sig_not_dec, "
     "sig_forall_dec, functional_extensionality_dep; Classical_Prop.classic through Flocq/Reals) - only files using Reals/Flocq",
     "extraction: ExtrOcamlBasic + ExtrOcamlZBigInt directives only (bool/option/unit/list/prod/sumbool/sumor to OCaml types; "
-    "positive/Z/N to zarith Big_int_Z with the arithmetic/comparison/div/shift constants of ExtrOcamlZBigInt.v); ocamlfind ocamlopt 4.13.1, zarith 1.12",
+    "positive/Z/N to zarith Big_int_Z with the arithmetic/comparison/div/shift constants of ExtrOcamlZBigInt.v) plus Extract Constant Z.gcd => Big_int_Z.gcd_big_int; ocamlfind ocamlopt 4.13.1, zarith 1.12",
     "correspondence machinery: Python case generator/comparator (tools/), Rust harness (harness/), OCaml line driver (ocaml/runner.ml)",
     "hand-written model tied to /repo by differential runs on generated inputs; not a translation of the Rust source",
     "rustc/cargo, glam, rstar, rayon, big-integer crates as used by /repo",
